@@ -938,7 +938,8 @@ func (c *VCtx) mapCardFacts(st *State, mt *types.Map, m, card *Term) {
 	dn, _, _ := mapHeapNames(mt)
 	ks := sortOf(mt.Key())
 	dom := c.heap(st, dn, ArrSort(SRef, ArrSort(ks, SBool)))
-	// card = 0 <=> domain empty (the only cardinality fact used)
+	// 0 <= card < 2^48; card = 0 <=> domain empty (the only cardinality facts used)
+	c.fact(And(Ge(card, IntLit(0)), Lt(card, IntLitS("281474976710656"))))
 	c.fact(Implies(Not(Eq(m, Null)), T(SBool, fmt.Sprintf("(= (= %s 0) (forall ((kk %s)) (not (select (select %s %s) kk))))", card.S, ks, dom.S, m.S))))
 }
 
